@@ -17,6 +17,7 @@ class Obligation:
         self.describe = describe
         self.mon_expr = mon_expr; self.m0_expr = m0_expr
         self.corr = None     # (mstep_expr, m0_expr, norm_expr) for correspondence obligations
+        self.confirm = None  # optional callback(path_numbers, bdir, hdr) -> replay payload (for non-R counterexamples)
 
 
 def rlock(name, target, *, St, mstep, enc, dec, wf, dec_enc, wf_step, m0, wf_m0,
@@ -117,3 +118,24 @@ def cmon(name, target, *, mon, m0, describe=""):
     """Runtime-oracle obligation: a monitor (N -> N -> N -> option (N * bool)) evaluated over simulator
     traces of the real module (for configurations too large for an R obligation)."""
     return Obligation(name, "C-monitor", target, "", "", [], describe, mon_expr=mon, m0_expr=m0)
+
+
+def affine(name, *, xt, nvars, spec_aff, describe="", confirm=None):
+    """A obligation: the GF(2) terms `xt` (regenerated from /repo) have the same affine normal forms as the symbolic
+    run `spec_aff` of the bit-serial reference.  Defines top-level `<xt>_aff`; a difference is reported as
+    ob_cex = Some [output bit; 0 | S variable] (the all-zero input resp. the unit vector distinguishes)."""
+    defs = f"""
+Definition {xt}_aff : list aff := {spec_aff}.
+Module {name}.
+  Definition forms := Eval vm_compute in map (nf {nvars}) {xt}_xt.
+  Definition spec := Eval vm_compute in {xt}_aff.
+  Definition ob_cex : option (list N) := Eval vm_compute in
+    match aff_diff 0 forms spec with Some (k, v) => Some [N.of_nat k; N.of_nat v] | None => None end.
+  Definition ob_left : nat := 0.
+  Definition ob_states : nat := Eval vm_compute in length forms.
+End {name}.
+"""
+    o = Obligation(name, "A-affine", None, defs, "", [], describe)
+    o.confirm = confirm
+    o.xt = xt; o.nvars = nvars
+    return o
